@@ -481,6 +481,14 @@ func c03LengthSweep(ctx *Ctx, report func(c interface{}, err error)) {
 		f.SetMantExp(f, bigFloatExps[n])
 		return []ev.Event{{K: ev.BigFloat, BF: f}}
 	}})
+	// big integers around the sizes at which either side may stop: 2^(8k) for k up to 1100 bytes
+	bigIntBytes := []int{100, 127, 128, 129, 255, 256, 257, 511, 512, 513, 1000, 1023, 1024, 1025, 1100}
+	fams = append(fams, family{"big-int-many-bytes", 0, len(bigIntBytes) - 1, func(n int) []ev.Event {
+		return []ev.Event{{K: ev.BigInt, Big: new(big.Int).Lsh(big.NewInt(0x81), uint(8*(bigIntBytes[n]-1)))}}
+	}})
+	fams = append(fams, family{"negative-big-int-many-bytes", 0, len(bigIntBytes) - 1, func(n int) []ev.Event {
+		return []ev.Event{{K: ev.BigInt, Big: new(big.Int).Neg(new(big.Int).Lsh(big.NewInt(0x81), uint(8*(bigIntBytes[n]-1))))}}
+	}})
 	// times: years, sub-seconds and zone forms at their edges
 	years := []int{-2000000000, -131072, -131071, -100000, -10000, -9999, -1001, -1, 1, 999, 1000, 1999, 2000, 2001, 2127, 2128, 9999, 10000, 99999, 131071, 131072, 2000000000}
 	fams = append(fams, family{"time/date-years", 0, len(years) - 1, func(n int) []ev.Event { return tm(compact_time.NewDate(years[n], 12, 31)) }})
